@@ -241,3 +241,40 @@ package mapping
 //@   ensures [empty-no-options] len(val) == 0 ==> len(result) == 0
 //@   ensures [bracketed-list] len(val) > 0 && val[0] == 91 ==> calls(parseGroupedSegments, val) == 1 && result == ret(parseGroupedSegments)
 //@   ensures [bar-separated] len(val) > 0 && val[0] != 91 ==> calls(strings.Split) == 1 && arg(strings.Split, 0) == val && arg(strings.Split, 1) == "|" && result == ret(strings.Split, 0)
+
+// ---------------- field options with their context (C05) ----------------
+//@ func (*fieldOptionsWithContext).getDefault
+//@   prop C05
+//@   ensures [declared-default] o != nil ==> result0 == o.Default && result1 == (len(o.Default) > 0)
+//@   ensures [no-options-no-default] o == nil ==> result0 == "" && !result1
+//@   modifies nothing
+//@ func (*fieldOptionsWithContext).optional
+//@   prop C05
+//@   ensures result == (o != nil && o.Optional)
+//@   modifies nothing
+//@ func (*fieldOptionsWithContext).options
+//@   prop C05
+//@   ensures [declared-options] o != nil ==> result == o.Options
+//@   modifies nothing
+// toOptionsWithContext: a plain `optional` stays optional; `optional=dep` makes the field optional exactly when dep
+// is absent and requires both or neither to be set; `optional=!dep` makes it optional exactly when dep is present
+// and requires exactly one of the two; the declared default / options / from-string are carried over unchanged.
+//@ func (*fieldOptions).toOptionsWithContext
+//@   prop C05
+//@   opaque Errorf
+//@   requires o != nil
+//@   let dep = o.OptionalDep
+//@   let negated = len(dep) > 0 && dep[0] == 33
+//@   let baseOn = ret(m.Value, 1, 1)
+//@   let selfOn = ret(m.Value, 1, 2)
+//@   ensures [not-optional-stays-required] !o.Optional ==> result1 == nil && !result0.Optional && calls(Value) == 0
+//@   ensures [plain-optional] o.Optional && len(dep) == 0 ==> result1 == nil && result0.Optional && calls(Value) == 0
+//@   ensures [optional-with-dependency] o.Optional && len(dep) > 0 && !negated ==> calls(m.Value) == 2 && arg(m.Value, 0, 1) == dep && arg(m.Value, 0, 2) == key && (baseOn != selfOn ==> result1 != nil && result0 == nil) && (baseOn == selfOn ==> result1 == nil && result0.Optional == !baseOn)
+//@   ensures [optional-with-negated-dependency] o.Optional && negated && len(dep) > 1 ==> calls(m.Value) == 2 && arg(m.Value, 0, 2) == key && (baseOn == selfOn ==> result1 != nil && result0 == nil) && (baseOn != selfOn ==> result1 == nil && result0.Optional == baseOn)
+//@   ensures [bare-negation-is-an-error] o.Optional && negated && len(dep) == 1 ==> result1 != nil && result0 == nil
+//@   ensures [declarations-carried-over] result1 == nil ==> result0.Default == o.Default && result0.Options == o.Options && result0.FromString == o.FromString
+// ... including the declared range= (a dependent-optional field is still range-checked), inherit and env
+//@   observe DepNegated = negated
+//@   observe BaseOn = baseOn
+//@   replay mapping_toOptions
+//@   ensures [range-inherit-env-carried-over] result1 == nil ==> result0.Range == o.Range && result0.Inherit == o.Inherit && result0.EnvVar == o.EnvVar
